@@ -1,6 +1,7 @@
 SPECIFICATION TSpec
 CONSTANTS
   MaxQ = 2
+  TwoPackets = TRUE
   KnownUniverse = {"ptr", "srv", "txt", "a", "enum"}
   Deviations = {"ptr", "srv", "txt", "a", "nsec", "enum"}
   QuarterRule = TRUE
